@@ -258,7 +258,23 @@ func genKeyData(t *rapid.T) []byte {
 	switch rapid.IntRange(0, 2).Draw(t, "kd_cls") {
 	case 0: // private: 00 || k, k adversarial
 		var k *big.Int
-		switch rapid.IntRange(0, 7).Draw(t, "k_cls") {
+		switch rapid.IntRange(0, 9).Draw(t, "k_cls") {
+		case 8, 9:
+			// around the group order word by word: some leading 32-bit / 64-bit words are n's, the next one is
+			// n's +-1 or arbitrary, the rest arbitrary (comparisons done in words must be lexicographic)
+			nb := pad32(curveN)
+			kb := genBytesN(t, "knear", 32)
+			w := 4 * rapid.IntRange(1, 7).Draw(t, "nwords")
+			copy(kb, nb[:w])
+			switch rapid.IntRange(0, 3).Draw(t, "nextword") {
+			case 0:
+				copy(kb[w:], nb[w:w+4])
+				kb[w+3]++
+			case 1:
+				copy(kb[w:], nb[w:w+4])
+				kb[w+3]--
+			}
+			k = new(big.Int).SetBytes(kb)
 		case 0:
 			k = big.NewInt(0)
 		case 1:
